@@ -93,6 +93,12 @@ def body_cons(ch, ctx):
         bad = []
     ctx.check(not bad, "iterator-dialect-differs", dict(sig, keys=",".join(bad)), file=texts[:3], checklines=cl,
               got={k: got.get(k) for k in bad}, expected={k: exp.get(k) for k in bad}, orders=orders)
+    # a feature line with an empty attribute column inside the window contributes nothing, not even default key names
+    if n >= 2 and cl >= 2:
+        with_empty = texts[:1] + ["c1\tsrc\tcontig\t1\t9\t.\t+\t.\t"] + texts[1:]
+        it3 = gffutils.DataIterator(dbutil.write_text(wd, "e.gff", "\n".join(with_empty) + "\n"), checklines=cl + 1)
+        ctx.check(list(it3.dialect["order"]) in [files.first_seen_order(lines, w) for w in (cl, cl + 1)], "order-polluted-by-empty-attribute-line",
+                  sig, got=list(it3.dialect["order"]), file=with_empty[:3])
     # the same lines handed over as Feature objects must be judged alike
     it2 = gffutils.DataIterator([feature_from_line(t) for t in texts], checklines=cl)
     ctx.check(dict(it2.dialect) == got, "feature-list-dialect-differs-from-path", sig, checklines=cl, file=texts[:3],
@@ -153,6 +159,15 @@ def body_route(ch, ctx):
         ok = ("t1" not in ids and "g1" not in ids and {"e0", "e1"} <= set(ids)
               and {("p1", "e0", 1), ("p1", "e1", 1)} <= rels and not any(p in ("t1", "g1") for p, _, _ in rels))
     ctx.check(ok, "wrong-import-semantics", sig, file=texts, ids=ids, relations=sorted(rels))
+    # force_gff chooses the importer; the dialect that is reported (and stored) is still the one the text is written in
+    plain = dict(db.dialect)
+    forced = gffutils.create_db(path, ":memory:", verbose=False, force_gff=True)
+    ctx.check(dict(forced.dialect) == plain, "force_gff-changed-the-reported-dialect", sig, plain=plain, forced=dict(forced.dialect))
+    fids = [f.id for f in forced.all_features()]
+    ctx.check("t1" not in fids and "g1" not in fids and len(fids) == len(texts), "force_gff-did-not-apply-gff3-semantics", sig, ids=fids)
+    supplied = dict(plain)
+    forced2 = gffutils.create_db(path, ":memory:", verbose=False, force_gff=True, dialect=supplied)
+    ctx.check(supplied == plain and dict(forced2.dialect) == plain, "force_gff-modified-the-supplied-dialect", sig, supplied=supplied)
 
 
 def mix_line(d, weight, i, rep_key):
